@@ -7,28 +7,42 @@ decoded query parameters), no bound on sizes. `handle` is the transliteration of
 `PrefixesApi::handle_prefix_query` (`Model/RibQuery.lean`); `Spec.*` is the property's own
 vocabulary (`Proofs/RibQuery.lean`).
 
-The code as written violates four clauses; each has a variant flag, a guarded theorem (the
+The code as written violates five clauses; each has a variant flag, a guarded theorem (the
 guard names exactly what is excluded), and a kernel-checked counterexample whose witness the
 engine replays on the real code first:
 `community` (community filters never match), `lesszero` (a stored default route is never among
 the less-specifics), `mcast` (multicast entries hidden unless the unicast answer is empty),
 `more` (the store's more-specifics set is wrong; as written the model takes the dependency's
-answer as an input and the theorem assumes the contract `ObsContract`).
-With all four repaired the guards are vacuous and the statements are the property at full
+answer as an input and the theorem assumes the contract `ObsContract`),
+`lessstop` (the store's less-specifics walk ends at the first record-less prefix slot, which a
+withdrawal of a never-announced prefix leaves behind; found through the history stream, builder U).
+With all five repaired the guards are vacuous and the statements are the property at full
 strength (`C11_full_repaired`).
 -/
 namespace Rotonda.RibQuery
 
-/-- What each as-written variant excludes. All four disjunctions hold for `repaired`. -/
+/-- No record-less slot of either store strictly covers the queried prefix. -/
+def NoEmptySlotAbove (rib : Rib) (q : Prefix) : Prop :=
+  ∀ e, e ∈ rib.unicast.empty ∨ e ∈ rib.multicast.empty → strictlyCovers e q = false
+
+theorem cutShort_false_of_none (s : Store) (q : Prefix) (r : Rec)
+    (h : ∀ e, e ∈ s.empty → strictlyCovers e q = false) : s.cutShort q r = false := by
+  simp only [Store.cutShort, List.any_eq_false, Bool.and_eq_true, decide_eq_true_eq, not_and]
+  intro e he hc
+  rw [h e he] at hc
+  cases hc
+
+/-- What each as-written variant excludes. All five disjunctions hold for `repaired`. -/
 structure Guards (v : Variant) (rib : Rib) (req : Request) (obsU obsM : List Prefix) : Prop where
   community : v.community = true ∨ NoCommunityFilter req.filters
   mcast : v.mcast = true ∨ rib.multicast.recs = []
   lesszero : v.lesszero = true ∨ ∀ r ∈ rib.stored, r.pfx.len ≠ 0
   more : v.more = true ∨ (ObsContract rib.unicast req.q obsU ∧ ObsContract rib.multicast req.q obsM)
+  lessstop : v.lessstop = true ∨ NoEmptySlotAbove rib req.q
 
 theorem Guards.of_repaired (rib : Rib) (req : Request) (obsU obsM : List Prefix) :
     Guards repaired rib req obsU obsM :=
-  ⟨Or.inl rfl, Or.inl rfl, Or.inl rfl, Or.inl rfl⟩
+  ⟨Or.inl rfl, Or.inl rfl, Or.inl rfl, Or.inl rfl, Or.inl rfl⟩
 
 /-- `data` = exactly the stored entries of the queried prefix that pass the filters. -/
 theorem C11_data (v : Variant) (rib : Rib) (lim : Limits) (reg : Register) (url : Url)
@@ -62,9 +76,19 @@ theorem C11_less (v : Variant) (rib : Rib) (lim : Limits) (reg : Register) (url 
     · rw [hl] at hs
       simp only [if_true, Option.getD_some, List.mem_filter, hs.less,
         includeItem_iff v reg req.filters r g.community, Spec.inLess, true_and]
+      have hstop : ∀ r, r ∈ rib.stored → (v.lessstop = true ∨
+          ((r ∈ rib.unicast.items ∧ rib.unicast.cutShort req.q r = false) ∨
+           (r ∈ rib.multicast.items ∧ rib.multicast.cutShort req.q r = false))) := by
+        intro r hr
+        rcases g.lessstop with h | h
+        · exact Or.inl h
+        · right
+          rcases List.mem_append.1 hr with hu | hm
+          · exact Or.inl ⟨hu, cutShort_false_of_none _ _ _ (fun e he => h e (Or.inl he))⟩
+          · exact Or.inr ⟨hm, cutShort_false_of_none _ _ _ (fun e he => h e (Or.inr he))⟩
       constructor
       · rintro ⟨⟨hr, hc, _⟩, hp⟩; exact ⟨hr, hc, hp⟩
-      · rintro ⟨hr, hc, hp⟩; exact ⟨⟨hr, hc, hz r hr⟩, hp⟩
+      · rintro ⟨hr, hc, hp⟩; exact ⟨⟨hr, hc, hz r hr, hstop r hr⟩, hp⟩
 
 /-- `moreSpecifics` exists iff requested and holds exactly the entries of stored prefixes the
 queried one strictly covers, narrowed by the filters. -/
@@ -277,7 +301,7 @@ def lim0 : Limits := ⟨8, 19⟩
 def urlOf (p : Prefix) (q : String) : Url := ⟨some p, parseQuery q.toList⟩
 
 /-- `GET /prefixes/10.0.0.0/8?select[community]=1:2` on a RIB whose only route carries 1:2. -/
-def wCommunityRib : Rib := ⟨⟨[rec1 (pfx 8 10) 1 1 [1, 2] [.std 1 2]], []⟩, ⟨[], []⟩⟩
+def wCommunityRib : Rib := ⟨⟨[rec1 (pfx 8 10) 1 1 [1, 2] [.std 1 2]], [], []⟩, ⟨[], [], []⟩⟩
 def wCommunityUrl : Url := urlOf (pfx 8 10) "select[community]=1:2"
 
 theorem C11_community_counterexample : ¬ C11_full { repaired with community := false } := by
@@ -291,7 +315,7 @@ theorem C11_community_counterexample : ¬ C11_full { repaired with community := 
 
 /-- `GET /prefixes/10.0.0.0/8?include=lessSpecifics` with a stored default route. -/
 def wLessZeroRib : Rib :=
-  ⟨⟨[rec1 (pfx 0 0) 1 1 [1] [], rec1 (pfx 8 10) 1 2 [1] []], []⟩, ⟨[], []⟩⟩
+  ⟨⟨[rec1 (pfx 0 0) 1 1 [1] [], rec1 (pfx 8 10) 1 2 [1] []], [], []⟩, ⟨[], [], []⟩⟩
 def wLessZeroUrl : Url := urlOf (pfx 8 10) "include=lessSpecifics"
 
 theorem C11_lesszero_counterexample : ¬ C11_full { repaired with lesszero := false } := by
@@ -304,7 +328,7 @@ theorem C11_lesszero_counterexample : ¬ C11_full { repaired with lesszero := fa
 
 /-- `GET /prefixes/10.0.0.0/8` when the prefix is stored both unicast and multicast. -/
 def wMcastRib : Rib :=
-  ⟨⟨[rec1 (pfx 8 10) 1 1 [1] []], []⟩, ⟨[rec1 (pfx 8 10) 2 2 [2] []], []⟩⟩
+  ⟨⟨[rec1 (pfx 8 10) 1 1 [1] []], [], []⟩, ⟨[rec1 (pfx 8 10) 2 2 [2] []], [], []⟩⟩
 def wMcastUrl : Url := urlOf (pfx 8 10) ""
 
 theorem C11_mcast_counterexample : ¬ C11_full { repaired with mcast := false } := by
@@ -315,11 +339,26 @@ theorem C11_mcast_counterexample : ¬ C11_full { repaired with mcast := false } 
   revert this
   decide
 
+/-- `GET /prefixes/10.1.1.0/24?include=lessSpecifics`: 10.0.0.0/8 is stored, and 10.1.0.0/16 is a
+record-less slot (a source withdrew 10.1.0.0/16 without ever having announced it). The store's
+less-specifics walk (/23, /22, … towards /1) ends at the /16, so the /8 is never reported. -/
+def wLessStopRib : Rib :=
+  ⟨⟨[rec1 (pfx 8 10) 1 1 [1] []], [], [pfx 16 2561]⟩, ⟨[], [], []⟩⟩
+def wLessStopUrl : Url := urlOf (pfx 24 655617) "include=lessSpecifics"
+
+theorem C11_lessstop_counterexample : ¬ C11_full { repaired with lessstop := false } := by
+  intro h
+  have hreq : parseRequest lim0 wLessStopUrl
+      = .ok ⟨pfx 24 655617, ⟨true, false⟩, ⟨false, [], []⟩, .json⟩ := by rfl
+  have := (h wLessStopRib lim0 [] wLessStopUrl _ hreq rfl).2.2.1.2 (rec1 (pfx 8 10) 1 1 [1] [])
+  revert this
+  decide
+
 /-- What rotonda-store 0.4.1 answers for the more-specifics of 151.7.0.0/17 when
 151.7.0.0/17 and 151.7.128.0/18 are stored: `[151.7.128.0/18]`, a prefix the queried one does
 not cover. The dependency's contract is violated, and the answer shows the wrong entry. -/
 def wMoreStore : Store :=
-  ⟨[rec1 (pfx 17 77326) 1 1 [1] [], rec1 (pfx 18 154655) 2 2 [2] []], []⟩
+  ⟨[rec1 (pfx 17 77326) 1 1 [1] [], rec1 (pfx 18 154655) 2 2 [2] []], [], []⟩
 def wMoreObs : List Prefix := [pfx 18 154655]
 
 theorem C11_more_contract_counterexample : ¬ ObsContract wMoreStore (pfx 17 77326) wMoreObs := by
@@ -330,7 +369,7 @@ theorem C11_more_contract_counterexample : ¬ ObsContract wMoreStore (pfx 17 773
 
 theorem C11_more_counterexample :
     rec1 (pfx 18 154655) 2 2 [2] [] ∈
-      ((handle asWritten ⟨wMoreStore, ⟨[], []⟩⟩ lim0 [] (urlOf (pfx 17 77326) "include=moreSpecifics")
+      ((handle asWritten ⟨wMoreStore, ⟨[], [], []⟩⟩ lim0 [] (urlOf (pfx 17 77326) "include=moreSpecifics")
         wMoreObs []).more.getD []) ∧
     ¬ Spec.inMore (pfx 17 77326) (rec1 (pfx 18 154655) 2 2 [2] []) := by
   decide
@@ -343,8 +382,8 @@ end Witnesses
 both includes, a select and a discard; the repaired model returns the expected sections. -/
 def exRib : Rib :=
   ⟨⟨[rec1 (pfx 0 0) 1 1 [1] [], rec1 (pfx 8 10) 1 2 [1, 2] [.std 1 2], rec1 (pfx 16 2561) 2 3 [3] [],
-     rec1 (pfx 24 655617) 1 4 [1, 2] []], [2]⟩,
-   ⟨[rec1 (pfx 16 2561) 7 5 [1, 2] [.std 1 2]], []⟩⟩
+     rec1 (pfx 24 655617) 1 4 [1, 2] []], [2], []⟩,
+   ⟨[rec1 (pfx 16 2561) 7 5 [1, 2] [.std 1 2]], [], []⟩⟩
 def exUrl : Url :=
   urlOf (pfx 16 2561) "include=lessSpecifics,moreSpecifics&select[as_path]=1,2&discard[peer_as]=7"
 
@@ -360,8 +399,9 @@ example :
   decide
 
 /-- The guards of the as-written variant are satisfiable by a non-trivial RIB and request
-(no multicast, no default route, no community filter, a contract-abiding store answer) … -/
-example : Guards asWritten ⟨wMoreStore, ⟨[], []⟩⟩
+(no multicast, no default route, no community filter, a contract-abiding store answer, no
+record-less slot) … -/
+example : Guards asWritten ⟨wMoreStore, ⟨[], [], []⟩⟩
     ⟨pfx 17 77326, ⟨true, true⟩, ⟨false, [.asPath [1]], []⟩, .json⟩ [] [] :=
   ⟨Or.inr (by intro k hk; simp at hk; subst hk; rfl), Or.inr rfl,
    Or.inr (by decide),
@@ -373,7 +413,8 @@ example : Guards asWritten ⟨wMoreStore, ⟨[], []⟩⟩
      rcases hr with rfl | rfl
      · exact hne rfl
      · revert hc; decide,
-    by intro p; simp [Store.items]⟩⟩
+    by intro p; simp [Store.items]⟩,
+   Or.inr (by intro e he; simp [wMoreStore] at he)⟩
 
 /-- … and each guard excludes something real (see the four counterexamples above): e.g. the
 limit clause refuses the /7 query of the witness RIB. -/
